@@ -323,7 +323,7 @@ func c06r1(c *RC) {
 			entries = append(entries, entry{fn, "worker RPC handler"})
 		}
 	}
-	c.Floor("goroutine entries (executors and RPC handlers)", len(entries), 8)
+	c.Floor("goroutine entries (executors and RPC handlers)", len(entries), 5)
 	nsites := 0
 	type memoKey struct {
 		fn      *Func
@@ -404,7 +404,7 @@ func c06r1(c *RC) {
 		explore(e.fn, false, nil, e.desc)
 	}
 	// goroutines spawned from functions not reached above (e.g. `go w.writeCombiner`) are found through explore's go handling
-	c.Floor("user-reaching call sites on executor paths", nsites, 8)
+	c.Floor("user-reaching call sites on executor paths", nsites, 5)
 	var reach []string
 	for f := range u.reach {
 		reach = append(reach, f.QName())
